@@ -96,8 +96,8 @@ func (f *FnEnc) callStatic(x ssa.Value, fn *ssa.Function, args []Val, argVs []ss
 	name := relFuncName(fn, f.e.pkg)
 	ct := f.e.cs.ByName[name]
 	if ct == nil {
-		f.fail("call to %s which has no contract", name)
-		return
+		f.unmodelled[name] = true
+		ct = &Contract{Name: name}
 	}
 	env := map[string]string{}
 	for i, p := range fn.Params {
@@ -129,8 +129,9 @@ func (f *FnEnc) callAbstract(x ssa.Value, key string, args []Val, argVs []ssa.Va
 		ct = f.e.cs.ByName[key]
 	}
 	if ct == nil {
-		f.fail("call to %s which has no abstract contract", key)
-		return
+		// unmodelled callee: sound fallback -- it may change everything and return anything
+		f.unmodelled[key] = true
+		ct = &Contract{Name: key, Abstract: true}
 	}
 	// abstract contracts may mention the caller's named locals (call-site contracts)
 	env := f.baseEnv(f.st)
@@ -182,7 +183,7 @@ func (f *FnEnc) applyContract(ct *Contract, name string, env map[string]string, 
 			e2["H"] = getPreH()
 			e2["H0"] = getPreH()
 		}
-		goal := r.Expr.subst(e2).String()
+		goal := f.e.strLitSubst(r.Expr.subst(e2).String())
 		if f.wantTags(tags) {
 			f.oblige("pre", name+"."+r.Label, tags, goal, "")
 		} else {
@@ -263,6 +264,16 @@ func (f *FnEnc) applyContract(ct *Contract, name string, env map[string]string, 
 	for _, en := range ct.Ensures {
 		at := exprAtoms(en.Expr)
 		e2 := envPost
+		{
+			chk := map[string]string{"H": "", "H0": ""}
+			for k, v := range envPost {
+				chk[k] = v
+			}
+			if len(f.e.unresolved(en.Expr, chk)) > 0 {
+				// the clause speaks about the callee's own locals: not usable at a call site
+				continue
+			}
+		}
 		if at["H"] || at["H0"] {
 			e2 = map[string]string{}
 			for k, v := range envPost {
@@ -278,7 +289,7 @@ func (f *FnEnc) applyContract(ct *Contract, name string, env map[string]string, 
 				e2["H0"] = getPreH()
 			}
 		}
-		f.assume(en.Expr.subst(e2).String())
+		f.assume(f.e.strLitSubst(en.Expr.subst(e2).String()))
 	}
 	return res
 }
